@@ -86,7 +86,11 @@ func (*c04) Rule() string {
 		"recorded Config, caller's map and chart afterwards), opts (mixtures of -f/--set-json/--set/--set-string/--set-file/--set-literal through " +
 		"Options.MergeValues: a 'simple' stream of single path=value flags over a shared pool of paths, and a 'rich' stream of generated trees " +
 		"and grammar expressions), parse (ParseInto/ParseIntoString/ParseJSON/ParseLiteralInto/ParseIntoFile on a non-empty dest: grammar stream " +
-		"with escaped keys, indexes, brace lists, typed literals; hand-written edge cases; malformed stream over a 20-symbol alphabet); " +
+		"with escaped keys, indexes, brace lists, typed literals; hand-written edge cases; malformed stream over a 20-symbol alphabet; " +
+		"round 4, through the second model Values/Strvals2.v: p2-nested (list indexes nested to depth >= 3), p2-index-bounds (MaxIndex+1, negative, signed, leading zeros, non-numeric, beyond int64; " +
+		"MaxIndex itself through deep-path probes), p2-escapes-at-index, p2-literal (values over the whole metacharacter alphabet), p2-json (objects/arrays/scalars at nested paths, non-ASCII blanks), " +
+		"p2-file (multi-line contents, brace lists of paths), p2-callback (a RunesValueReader returning typed values, tables, nil and errors), p2-fresh-map (Parse/ParseString/ParseLiteral/ParseFile), " +
+		"p2-ill-formed-utf8, p2-empty-key, p2-malformed (all five parsers), every string of length <= 3 over 'a . = , [ ] 0 \\' through the literal parser); " +
 		"non-trivial = no error and (at least two sources define a common path | flags from >= 2 families | the parse changed a non-empty dest); " +
 		"distinct = hash of (case, observation)"
 }
